@@ -49,19 +49,117 @@ theorem normalised_inv (l : List Validator) (T : Int) (hne : l ≠ [])
   · unfold Spec.total; rw [hp]; exact htot
   · exact forall_of_map_eq (·.power) (fun p => 0 ≤ p) l _ hp (fun v hv => Int.le_of_lt (hpos v hv))
 
-/-- **`model_refines_spec`, sharp form**: distinct addresses, positive powers, cached total
-`= Σ power`, priorities in `[−B, B]`; the normalisation needs `2B + 2T < 2^63`, the rounds need
-`n + 2·n·T + 2T < 2^63` (after the normalisation every priority is in `[−2T, 2T]` whatever `B` was;
-the priority sum is constant and no priority falls below `−2T`, hence none exceeds `n + 2nT`).  Then
-`IncrementProposerPriority(k)` is the unbounded specification for **every** `k ≥ 1`. -/
-theorem increment_refines_spec_sharp (vs : ValSet) (k : Nat) (B : Int)
+/-- what is carried from one iteration of the loop to the next -/
+structure IterCtx (T : Int) (l : List Validator) : Prop where
+  ne : l ≠ []
+  nodup : (l.map (·.addr)).Nodup
+  pos : ∀ v ∈ l, 0 < v.power
+  tot : T = Spec.total l
+
+/-- **one iteration of the loop is one normalised specification round**: with priorities in
+`[−B, B]`, `2B + 2T < 2^63` and `8T < 2^63` (always true for `T ≤ cap`) neither the rescale, nor
+the centring, nor the round wraps or clips; afterwards every priority is in `[−3T, 3T]` (in
+`[−2T, 2T]` after the normalisation, one round moves a priority by at most `T`). -/
+theorem normStep_refines (T B : Int) (l : List Validator) (h : IterCtx T l) (hb : PrioBound B l)
+    (hfitB : 2 * B + 2 * T ≤ maxI64) (hT8 : 8 * T ≤ maxI64) :
+    normStep T (2 * T) l = some (Spec.normStep T l) ∧ IterCtx T (Spec.normStep T l).1 ∧
+    PrioBound (3 * T) (Spec.normStep T l).1 ∧
+    (0 ≤ sumPrio (Spec.normStep T l).1 ∧ sumPrio (Spec.normStep T l).1 < (Spec.normStep T l).1.length) := by
+  obtain ⟨hne, hn, hpos, htot⟩ := h
+  have htpos : 0 < T := by rw [htot]; exact total_pos _ hne hpos
+  obtain ⟨x, hx⟩ : ∃ x, x ∈ l := by
+    cases hl : l with
+    | nil => exact absurd hl hne
+    | cons y _ => exact ⟨y, List.mem_cons_self⟩
+  have hB0 : 0 ≤ B := by have := hb x hx; omega
+  have hr : ∀ v ∈ l, InRange v.prio := fun v hv => by
+    have := hb v hv; unfold InRange minI64; unfold maxI64 at hfitB ⊢; omega
+  have hok : RescaleOK (2 * T) l := by
+    refine ⟨hne, hr, by omega, by omega, ?_⟩
+    obtain ⟨u, hu, e1⟩ := maxPrio_mem l hne hr
+    obtain ⟨w, hw, e2⟩ := minPrio_mem l hne hr
+    have := hb u hu; have := hb w hw
+    omega
+  have hpanic : rescalePanics (2 * T) l = false :=
+    rescalePanics_false _ _ (by unfold maxI64 at hT8; omega)
+  have hb1 := rescaleList_bound (2 * T) B l hok hb
+  obtain ⟨hinv, hsn, hlen⟩ := normalised_inv l T hne hn hpos htot hok
+  have hlen1 : (rescaleList (2 * T) l).length = l.length :=
+    length_of_map_eq (·.addr) _ _ (rescaleList_addr _ _)
+  have hne1 : rescaleList (2 * T) l ≠ [] := by
+    intro e; rw [e] at hlen1
+    cases hl : l with
+    | nil => exact hne hl
+    | cons _ _ => rw [hl] at hlen1; simp at hlen1
+  have eshift : shiftList (rescaleList (2 * T) l) = Spec.centre (rescaleList (2 * T) l) :=
+    shiftList_eq_spec B _ hne1 hb1 (by omega)
+  -- after the normalisation: [-2T, 2T]
+  have hw := Spec.centre_window _ (2 * T) (rescaleList_window (2 * T) l hok)
+  have hb0 : PrioBound (2 * T) (Spec.centre (rescaleList (2 * T) l)) :=
+    centred_window_bound _ (2 * T) ⟨hinv.sum0, hsn⟩ hw
+  have hp0 : PowBound T (Spec.centre (rescaleList (2 * T) l)) := by
+    intro v hv
+    refine ⟨hinv.pow v hv, ?_⟩
+    have := power_le_total _ hinv.pow v hv
+    rw [hinv.tot, total_eq_sumBy]; exact this
+  have estep : stepList T (Spec.centre (rescaleList (2 * T) l)) =
+      Spec.step T (Spec.centre (rescaleList (2 * T) l)) :=
+    stepList_eq_spec (2 * T) T _ hb0 hp0 (by omega) (by omega)
+  obtain ⟨hinv1, hs1, ha1, hp1⟩ := Spec.step_inv T _ _ hinv
+  have hbound := (Spec.step_bound (2 * T) T _ hb0 hp0 (by omega)).1
+  have eres := rescaleList_eq_spec _ _ hok
+  have hnorm : Spec.normStep T l = Spec.step T (Spec.centre (rescaleList (2 * T) l)) := by
+    unfold Spec.normStep; rw [eres]
+  refine ⟨?_, ?_, ?_, ?_⟩
+  · unfold normStep
+    rw [hpanic, hnorm]
+    simp only [Bool.false_eq_true, if_false, eshift, estep]
+  · rw [hnorm]
+    refine ⟨hinv1.ne, hinv1.nodup, ?_, hinv1.tot⟩
+    have hpw : (Spec.step T (Spec.centre (rescaleList (2 * T) l))).1.map (·.power) = l.map (·.power) := by
+      rw [hp1, Spec.centre_power, rescaleList_power]
+    exact forall_of_map_eq (·.power) (fun p => 0 < p) l _ hpw hpos
+  · rw [hnorm]
+    have e3 : 2 * T + T = 3 * T := by omega
+    rw [← e3]; exact hbound
+  · rw [hnorm, hs1, length_of_map_eq (·.addr) _ _ ha1]
+    exact ⟨hinv.sum0, hsn⟩
+
+/-- **the loop is the specification's loop, for every number of iterations** -/
+theorem normSteps_refines (T : Int) (k : Nat) (B : Int) (l : List Validator) (p : Option Nat)
+    (h : IterCtx T l) (hb : PrioBound B l) (hfitB : 2 * B + 2 * T ≤ maxI64) (hT8 : 8 * T ≤ maxI64) :
+    normSteps T (2 * T) k l p = some (Spec.normSteps T k l p) ∧
+    IterCtx T (Spec.normSteps T k l p).1 ∧
+    (1 ≤ k → PrioBound (3 * T) (Spec.normSteps T k l p).1 ∧
+      (0 ≤ sumPrio (Spec.normSteps T k l p).1 ∧
+        sumPrio (Spec.normSteps T k l p).1 < (Spec.normSteps T k l p).1.length)) := by
+  induction k generalizing B l p with
+  | zero => exact ⟨rfl, h, fun hk => by omega⟩
+  | succ k ih =>
+    obtain ⟨e1, h1, b1, c1⟩ := normStep_refines T B l h hb hfitB hT8
+    obtain ⟨e2, h2, b2⟩ := ih (3 * T) (Spec.normStep T l).1 (Spec.normStep T l).2 h1 b1 (by omega)
+    refine ⟨?_, h2, ?_⟩
+    · simp only [normSteps, e1]
+      exact e2
+    · intro _
+      by_cases hk0 : k = 0
+      · subst hk0; exact ⟨b1, c1⟩
+      · exact b2 (by omega)
+
+/-- the **former rule** (one normalisation, then `k` rounds) against the specification's plain
+rounds `Spec.steps` — kept because over a stretch without a rescale the present rule computes the
+same (`increment_eq_incrementOld`), which is how the accounting theorems about `Spec.run` reach the
+code.  The rounds need `n + 2·n·T + 2T < 2^63` here (nothing re-centres the window in between). -/
+theorem incrementOld_refines_spec (vs : ValSet) (k : Nat) (B : Int)
     (hn : (vs.vals.map (·.addr)).Nodup) (hpos : ∀ v ∈ vs.vals, 0 < v.power)
     (htot : vs.total = Spec.total vs.vals)
     (hne : vs.vals ≠ []) (hk : 0 < k) (hb : PrioBound B vs.vals)
     (hfitB : 2 * B + 2 * vs.total ≤ maxI64)
     (hfit : (vs.vals.length : Int) + 2 * ((vs.vals.length : Int) * vs.total) + 2 * vs.total ≤ maxI64) :
-    increment vs k = .ok { vals := (Spec.increment vs.vals k).1,
-                           proposer := (Spec.increment vs.vals k).2, total := vs.total } := by
+    incrementOld vs k = .ok
+      { vals := (Spec.steps vs.total k (Spec.centre (Spec.rescale (2 * vs.total) vs.vals)) none).1,
+        proposer := (Spec.steps vs.total k (Spec.centre (Spec.rescale (2 * vs.total) vs.vals)) none).2,
+        total := vs.total } := by
   have htpos : 0 < vs.total := by rw [htot]; exact total_pos _ hne hpos
   have hnpos := length_pos_int vs.vals hne
   have hnT : 1 * vs.total ≤ (vs.vals.length : Int) * vs.total :=
@@ -72,7 +170,6 @@ theorem increment_refines_spec_sharp (vs : ValSet) (k : Nat) (B : Int)
     | nil => exact absurd h hne
     | cons y _ => exact ⟨y, List.mem_cons_self⟩
   have hB0 : 0 ≤ B := by have := hb x hx; omega
-  -- the window
   have eD : I64.mul windowFactor vs.total = 2 * vs.total := by
     unfold windowFactor
     exact I64.mul_exact _ _ (by unfold InRange minI64; unfold maxI64 at hfit ⊢; omega)
@@ -97,17 +194,42 @@ theorem increment_refines_spec_sharp (vs : ValSet) (k : Nat) (B : Int)
     shiftList_eq_spec B _ hne1 hb1 (by omega)
   have esteps := stepsList_eq_spec_inv vs.total (2 * vs.total) k _ none hinv (by omega) hsn (by
     rw [hlen, Int.mul_left_comm]; omega)
-  rw [increment_eq vs (k : Int) hne (by omega) (by omega) hpanic, eD, eshift]
+  rw [incrementOld_eq vs (k : Int) hne (by omega) (by omega) hpanic, eD, eshift]
   have hk' : ((k : Nat) : Int).toNat = k := by omega
   rw [hk', esteps, rescaleList_eq_spec _ _ hok]
+
+/-- **`model_refines_spec`, sharp form**: distinct addresses, positive powers, cached total
+`= Σ power ≤ cap`, priorities in `[−B, B]` with `2B + 2T < 2^63` (needed for the first
+normalisation only: after it every priority is in `[−3T, 3T]` for ever, and `8T < 2^63` because
+`T ≤ cap`).  Then `IncrementProposerPriority(k)` is the unbounded specification for **every**
+`k ≥ 1` and **every** number of validators. -/
+theorem increment_refines_spec_sharp (vs : ValSet) (k : Nat) (B : Int)
+    (hn : (vs.vals.map (·.addr)).Nodup) (hpos : ∀ v ∈ vs.vals, 0 < v.power)
+    (htot : vs.total = Spec.total vs.vals) (hcap : vs.total ≤ cap)
+    (hne : vs.vals ≠ []) (hk : 0 < k) (hb : PrioBound B vs.vals)
+    (hfitB : 2 * B + 2 * vs.total ≤ maxI64) :
+    increment vs k = .ok { vals := (Spec.increment vs.vals k).1,
+                           proposer := (Spec.increment vs.vals k).2, total := vs.total } := by
+  have htpos : 0 < vs.total := by rw [htot]; exact total_pos _ hne hpos
+  have eD : I64.mul windowFactor vs.total = 2 * vs.total := by
+    unfold windowFactor
+    exact I64.mul_exact _ _ (by unfold InRange minI64 maxI64; unfold cap at hcap; omega)
+  have h1 : vs.vals.isEmpty = false := by
+    cases h : vs.vals with | nil => exact absurd h hne | cons _ _ => rfl
+  have h2 : ¬ ((k : Nat) : Int) ≤ 0 := by omega
+  have hk' : ((k : Nat) : Int).toNat = k := by omega
+  obtain ⟨e, _, _⟩ := normSteps_refines vs.total k B vs.vals none ⟨hne, hn, hpos, htot⟩ hb hfitB
+    (by unfold maxI64; unfold cap at hcap; omega)
+  unfold increment
+  simp only [h1, h2, if_false, Bool.false_eq_true, totalOf_wf vs hpos htot, eD, hk', e]
   unfold Spec.increment
   simp only [← htot]
 
-/-- **`model_refines_spec`, `k`-independent** (the form of `ModelRefinesSpecStatement`): one bound
-`2·n·max(B, T) + n + 2T < 2^62`. -/
+/-- **`model_refines_spec`** in the form of `ModelRefinesSpecStatement` (the size bound
+`2·n·max(B, T) + n + 2T < 2^62` of the former rule is more than enough). -/
 theorem increment_refines_spec (vs : ValSet) (k : Nat) (B : Int)
     (hn : (vs.vals.map (·.addr)).Nodup) (hpos : ∀ v ∈ vs.vals, 0 < v.power)
-    (htot : vs.total = Spec.total vs.vals)
+    (htot : vs.total = Spec.total vs.vals) (hcap : vs.total ≤ cap)
     (hne : vs.vals ≠ []) (hk : 0 < k) (hb : PrioBound B vs.vals)
     (hfit : 2 * (vs.vals.length : Int) * (max B vs.total) + vs.vals.length + 2 * vs.total < 2 ^ 62) :
     increment vs k = .ok { vals := (Spec.increment vs.vals k).1,
@@ -120,10 +242,7 @@ theorem increment_refines_spec (vs : ValSet) (k : Nat) (B : Int)
   have hmaxT : vs.total ≤ max B vs.total := by omega
   generalize max B vs.total = M at hfit hmaxB hmaxT
   have hnM : 1 * M ≤ (vs.vals.length : Int) * M := Int.mul_le_mul_of_nonneg_right (by omega) (by omega)
-  have hnT : (vs.vals.length : Int) * vs.total ≤ (vs.vals.length : Int) * M :=
-    Int.mul_le_mul_of_nonneg_left hmaxT (by omega)
   rw [Int.one_mul] at hnM
-  exact increment_refines_spec_sharp vs k B hn hpos htot hne hk hb (by unfold maxI64; omega)
-    (by unfold maxI64; omega)
+  exact increment_refines_spec_sharp vs k B hn hpos htot hcap hne hk hb (by unfold maxI64; omega)
 
 end KV.ValSet
